@@ -125,6 +125,27 @@ fn handle(req: &Value) -> Value {
                 Err(_) => json!({"panic": true}),
             }
         }
+        "polytope" => {
+            // every 3D cell with stored face information: vertices, planes, face polygons, accessors, face areas, and the same after discard_faces().with_faces()
+            let gens: Vec<DVec3> = req["gens"].as_array().unwrap().iter().map(v3).collect();
+            let periodic = req["periodic"].as_bool().unwrap_or(false);
+            let r = std::panic::catch_unwind(|| {
+                let vi = meshless_voronoi::VoronoiIntegrator::build(&gens, None, v3(&req["anchor"]), v3(&req["width"]), Dimensionality::ThreeD, periodic).with_faces();
+                let cells: Vec<Value> = vi.cells_iter().map(|c| {
+                    let verts: Vec<Value> = c.vertices.iter().map(|v| json!({"loc": j3(v.loc), "dual": v.dual.to_vec()})).collect();
+                    let planes: Vec<Value> = c.clipping_planes.iter().map(|h| json!({"n": j3(h.plane.n), "p": j3(h.plane.p)})).collect();
+                    let faces: Vec<Value> = (0..c.face_count()).map(|f| json!({"vertices": c.face_vertices(f), "count": c.face_vertex_count(f), "neighbour": c.neighbour(f), "shift": c.shift(f).map(j3),
+                        "plane": {"n": j3(c.clipping_plane(f).n), "p": j3(c.clipping_plane(f).p)}})).collect();
+                    let areas: Vec<Value> = c.compute_face_integrals::<(), meshless_voronoi::integrals::AreaIntegral>(()).iter()
+                        .map(|fi| json!({"right": fi.right(), "shift": fi.shift().map(j3), "area": fi.integral().area})).collect();
+                    let again = c.clone().discard_faces().with_faces();
+                    let faces2: Vec<Value> = (0..again.face_count()).map(|f| json!({"vertices": again.face_vertices(f), "neighbour": again.neighbour(f), "shift": again.shift(f).map(j3)})).collect();
+                    json!({"idx": c.idx, "loc": j3(c.loc), "vertices": verts, "planes": planes, "faces": faces, "areas": areas, "faces_after_discard_and_rederive": faces2})
+                }).collect();
+                json!({"cells": cells})
+            });
+            r.unwrap_or_else(|_| json!({"panic": true}))
+        }
         "halfspace_clip" => {
             let hs = meshless_voronoi::HalfSpace::new(v3(&req["n"]), v3(&req["p"]), None, None);
             json!({"r": hs.clip(v3(&req["v"]))})
